@@ -44,6 +44,39 @@ def main():
     rep.add_mc("5 semantics x 4 input/output assignments x %d formulas: operational online machine = declarative RhoIA" % len(F), r)
     if r["violated"]:
         rep.mc_violation("C06_online", r)
+    # offline half of the machine with the action Reconfigure: an object moves between the input / output assignments (and tolerances) of
+    # its semantics between evaluations; every result is the semantics under the configuration in force at that evaluation (InvC01cfg,
+    # ActReconf), and the deviation staleConfig (the first configuration memoised) breaks it.  (B): TLC-simulated behaviours with
+    # Reconfigure steps are replayed on the real library and validated by TraceDt (event config = set_sampling_period(),
+    # set_var_io_type(), parse() again)
+    FR = [ax, ay, bi("and", ax, ay), bi("implies", ax, un("alw", ay)), un("ev", axy), bi("until", ax, ay)]
+    for sem in (["out_rob"] if quick else [s_ for s_ in SEMS if s_ != "standard"]):
+        rc = [mc.std_cfg(["x", "y"], tol=t_, mode={"sem": sem, "io": {"x": iox, "y": ioy}})
+              for (iox, ioy, t_) in (("input", "output", 0), ("output", "input", 1), ("input", "input", 0), ("output", "output", 1))]
+        r = mc.rtamt_mc("C06_reconf_" + sem, FR, rc, vals=(-2, 3), gaps=(1, 2), maxlen=2, mode="offline",
+                        invariants=["InvC01cfg", "InvC13"], properties=["ActReconf"])
+        rep.add_mc("offline machine with Reconfigure between 4 configurations (%s): every evaluation under the configuration in force" % sem, r)
+        if r["violated"]:
+            rep.mc_violation("C06_reconf_" + sem, r)
+    rr = mc.rtamt_mc("C06_reconf_dev", FR[:3], rc, vals=(-2, 3), gaps=(1, 2), maxlen=2, mode="offline", dev=["staleConfig"],
+                     invariants=["InvC01cfg"], properties=["ActReconf"], expect_violation=True)
+    rep.extra["deviation_on_counterexample"] = {"staleConfig": rr["violated"]}
+    import behaviours
+    bcases = []
+    for sem in [s_ for s_ in SEMS if s_ != "standard"]:
+        rc = [mc.std_cfg(["x", "y"], tol=t_, mode={"sem": sem, "io": {"x": iox, "y": ioy}})
+              for (iox, ioy, t_) in (("input", "output", 0), ("output", "input", 1), ("input", "input", 0), ("output", "output", 1))]
+        bres, behs = behaviours.simulate("C06_sim_" + sem, FR + F[:8], ["x", "y"], num=(40 if quick else 400), depth=(6 if quick else 8),
+                                         seed=core.seed(), mode="offline", configs=rc, gaps=(1, 2))
+        rep.add_mc("TLC simulation of Rtamt.tla, offline half with Reconfigure (%s): behaviours generated for replay" % sem, bres, exhaustive=False)
+        if bres["violated"]:
+            rep.mc_violation("C06_sim_" + sem, bres)
+        bcases += behaviours.to_cases(behs, ["x", "y"], factories=("StlDiscreteTimeSpecification",))
+    btr = runner.run_cases(bcases)
+    bvs, bgen, bdist = core.validate("C06_sim_replay", btr)
+    rep.add_traces(btr, bvs, bgen, bdist, nontrivial_key=lambda c: c["objs"][0]["text"] + str([(e["a"], e.get("io"), e.get("w")) for e in c["events"]]))
+    rep.extra["tlc_behaviours_replayed"] = len(bcases)
+    rep.extra["tlc_behaviours_with_reconfigure"] = sum(1 for c in bcases if any(e["a"] == "config" for e in c["events"]))
 
     # dense time: the operational models of the offline and the online monitor (DenseOff!OffCM, DenseOn!UpdateCM with the
     # interface-aware predicate clause) denote Dense!SigC under the 5 semantics x all input/output assignments
